@@ -16,7 +16,9 @@ A program is a plain dict (JSON-able):
 Reference forms of a call edge: "bare" (name in the same module), "modattr" (b.NAME, callee
 lives in module b), "alias" (module-level NAME_alias = NAME), "wrapper" (functools.wraps
 decorator wrapper object), "hidden" (globals()[...] dynamic call - invisible to the static
-analysis), "nested" (call nested inside a dereferenced call: str(NAME(1)).strip()),
+analysis), "nested" (call nested inside a dereferenced call: str(NAME(1)).strip()), "comp" / "lambda" / "partial" / "cond" / "default" /
+"innerdef" (inside a comprehension, a lambda body, functools.partial, one arm of a conditional, a default value of a nested
+function, a nested def),
 "arg" (callee passed to the caller as an argument, see C14).
 """
 import copy
@@ -75,6 +77,18 @@ def _call_expr(c, in_module, prog):
         return "globals()[%r](%s)" % (t, a)
     if form == "nested":
         return "str(%s(%s)).strip()" % (t, a)
+    if form == "comp":  # inside a comprehension
+        return "[%s(%s) for _ in range(1)][0]" % (t, a)
+    if form == "lambda":  # inside a lambda body
+        return "(lambda: %s(%s))()" % (t, a)
+    if form == "partial":  # through functools.partial
+        return "functools.partial(%s, %s)()" % (t, a)
+    if form == "cond":  # only in one arm of a conditional expression / boolean operator
+        return "(%s(%s) if x is not None else None) or 0" % (t, a)
+    if form == "default":  # bound as a default parameter value of a nested function
+        return "(lambda fnd=%s: fnd(%s))()" % (t, a)
+    if form == "innerdef":  # called from a nested def (rendered by render_func)
+        return "_inner_%s(%s)" % (t, a)
     if form == "arg":
         return "fnarg(%s)" % a
     if form == "passfn":  # call the target and hand it another function as an argument
@@ -106,6 +120,9 @@ def render_func(f, prog, plain):
     for r in f["reads"]:
         out.append("    acc.append(%s)" % r)
     for c in f["calls"]:
+        if c["form"] == "innerdef":
+            out.append("    def _inner_%s(v):" % c["target"])
+            out.append("        return %s(v)" % c["target"])
         out.append("    acc.append(%s)" % _call_expr(c, f["module"], prog))
     if f.get("raises"):
         out.append("    raise ValueError('boom-%s' % (acc,))")
